@@ -244,7 +244,10 @@ def run_check(tier, seed, replay=None):
 
     if not replay:
         need = ["epoch-boundary", "sync-period-boundary", "deposit-new-validator", "deposit-mid-epoch",
-                "upgrade:altair", "upgrade:bellatrix", "upgrade:capella", "upgrade:deneb"]
+                "upgrade:altair", "upgrade:bellatrix", "upgrade:capella", "upgrade:deneb",
+                # forks whose contexts are Clones of one context: one copy is stepped, the others are re-observed
+                "recheck-parent", "recheck-sibling", "fork-both-deposit-different-amounts-same-epoch",
+                "fork-one-deposits-other-rotates-first", "clone-eff-len-lt-cap", "clone-eff-len-eq-cap"]
         missing = [k for k in need if flags[k] == 0]
         for k in ("slot", "block", "genesis"):
             if steps[k] == 0:
@@ -267,14 +270,19 @@ def run_check(tier, seed, replay=None):
         "traces_validated_against_impl": accepted,
         "samples": samples or [["replay"]],
         "evaluations": sum(steps.values()),
-        "distinct_nontrivial": sum(flags[k] for k in flags if k != "deposit-mid-epoch"),
+        "distinct_nontrivial": sum(flags[k] for k in flags if k in ("epoch-boundary", "sync-period-boundary", "deposit-new-validator",
+                                                                     "recheck-parent", "recheck-sibling") or k.startswith("upgrade:")),
         "rule": "one evaluation = one observation point (live context vs fresh context vs the specification's context of the "
                 "logged registry, decided by TLC); non-trivial = points right after an epoch boundary, a sync-committee period "
-                "boundary, a deposit that added validators or a fork upgrade",
+                "boundary, a deposit that added validators or a fork upgrade, and re-observations of the unstepped parent / sibling "
+                "copies of a context after a copy of it was stepped",
         "chains": len(todo), "points_by_kind": dict(steps), "points_by_line": dict(lines), "points_by_fork": dict(by_fork),
         "epoch_boundaries": flags["epoch-boundary"], "sync_period_boundaries": flags["sync-period-boundary"],
         "deposits_adding_validators": flags["deposit-new-validator"],
         "upgrades": {k.split(":")[1]: v for k, v in flags.items() if k.startswith("upgrade:")},
+        "rechecks_of_unstepped_copies": {"parent": flags["recheck-parent"], "sibling": flags["recheck-sibling"]},
+        "fork_scripts": {k: flags[k] for k in ("fork-both-deposit-different-amounts-same-epoch", "fork-one-deposits-other-rotates-first",
+                                                "clone-eff-len-lt-cap", "clone-eff-len-eq-cap")},
         "reload_points": tot["reload_points"], "reload_comparisons": tot["peer_comparisons"], "branches": tot["branches"],
         "known_deviations_enabled": deviations, "deviations_used": dict(devs_total), "known_findings_seen": dict(known),
         "scenarios_stopped_early": stopped,
